@@ -242,6 +242,8 @@ def resolve(world, op):
         for w, vs in zip(flat, vspecs):
             idx = real_idx(spec, [LETTERS.index(w[0]), int(w[1:]) - 1])
             v = resolve_vs(vs, run[idx], spec["min"], spec["max"], direction, g)
+            if "cap" in op and math.isfinite(v):
+                v = min(v, quantize(float(op["cap"]), g))
             vols.append(v)
             if math.isfinite(v):
                 run[idx] = run[idx] - v if direction == "remove" else run[idx] + v
@@ -259,6 +261,8 @@ def resolve(world, op):
                     v = resolve_vs(op["vols"]["v"], run[idx], spec["min"], spec["max"], direction, g) / k
                     v = quantize(v, g)
                     best = v if best is None else min(best, v)
+                if "cap" in op:
+                    best = min(best, quantize(float(op["cap"]), g))
                 vols = [max(0.0, best)] * len(flat)
             else:
                 vols = [vols[0]] * len(flat)
@@ -306,6 +310,8 @@ def resolve(world, op):
                 v = resolve_vs(vs, drun[didx], ds["min"], ds["max"], "add", g)
             else:
                 v = resolve_vs(vs, srun[sidx], ss["min"], ss["max"], "remove", g)
+            if "cap" in op and math.isfinite(v):
+                v = min(v, quantize(float(op["cap"]), g))
             vols.append(v)
             if math.isfinite(v):
                 srun[sidx] -= v
